@@ -2,12 +2,20 @@ use icverif::report::Tier;
 
 fn main() {
     let args: Vec<String> = std::env::args().collect();
-    if args.len() < 3 {
+    if args.len() < 3 && args.get(1).map(|s| s.as_str()) != Some("isolate-selftest") {
         eprintln!("usage: icverif check <ID> <quick|thorough> | icverif replay <file>");
         std::process::exit(2);
     }
     icverif::env::init();
     let code = match args[1].as_str() {
+        // private subcommand: worker process of the subprocess-isolation helper (harness/src/isolate.rs)
+        "worker" => icverif::isolate::worker_main(&args[2..]),
+        "isolate-selftest" => icverif::isolate::selftest(),
+        "c25-stats" => {
+            let tier = if args.get(2).map(|s| s.as_str()) == Some("thorough") { Tier::Thorough } else { Tier::Quick };
+            println!("{}", serde_json::to_string_pretty(&icverif::props::c25::C25Job::new(tier).stats()).unwrap());
+            0
+        }
         "check" => {
             let tier = match args.get(3).map(|s| s.as_str()) {
                 Some("thorough") => Tier::Thorough,
